@@ -1,15 +1,18 @@
 """C15 Expression type inference is sound and symmetric.
 
-Layer 1 (h_interval, symex / direct): numeric skeletons <= 5 nodes over int/real fluents and constants.  The real
-TypeChecker computes the type while the ExpressionManager constructors build the node.  One solver query per path:
+Layer 1 (h_interval): numeric skeletons <= 5 nodes (6 in the thorough tier) over int/real fluents and constants.  The
+real TypeChecker computes the type while the ExpressionManager constructors build the node.  ONE solver query per path:
 exists leaf values inside their declared types (divisors non-zero) with the value of e outside the inferred interval.
-  * "sym" shards: every type bound and every constant is a solver variable (two-sided bounds), engine symex.
-  * "conc" shards: unbounded / half-bounded / bounded fluents with concrete bounds from a sign-covering pool, engine
-    direct (the type checker runs concretely, the leaf VALUES stay solver variables in the query).
-Layer 1b (h_exact): Boolean / user-typed / leaf expressions get exactly their type.
-Layer 2 (h_divconst): Div(l, r) of integer constants: IEEE-754 exact model of the arithmetic walk_div performs
-  (regenerated from the current source), exists l, r != 0 with l/r outside [lower, upper]; replayed on the real checker.
-Layer 3 (h_symmetry): accepted(Equals(l, r)) == accepted(Equals(r, l)) for all ordered pairs of typed operands.
+  * "sym" shards (engine symex): every type bound and every constant is a solver variable (unbounded integers);
+    int fluents bounded / half-bounded / unbounded in every combination, real fluents with symbolic two-sided bounds.
+  * "conc" shards (engine direct): unbounded / half-bounded / bounded int and real fluents with concrete bounds from a
+    sign-covering pool (the type checker runs concretely; the leaf VALUES are the solver variables of the query),
+    including division by constants and by point-typed fluents.
+Layer 1b (h_exact): Boolean / user-typed / leaf expressions get exactly their type (bounds symbolic).
+Layer 2 (h_divconst, engine direct + own numeric proxies): the REAL TypeChecker.walk_div runs on proxy operands whose
+  `/` is IEEE-754 binary64 division in z3's FloatingPoint theory (and whose Fraction(...) is exact); exists l, r != 0
+  (64-bit, |.| <= 2^53) with l/r outside [lower, upper]; counterexamples are replayed on the real checker.
+Layer 3 (h_symmetry, engine direct): accepted(Equals(l, r)) == accepted(Equals(r, l)) for all ordered pairs of operands.
 """
 from fractions import Fraction
 
@@ -32,11 +35,38 @@ FUNCTIONS = [
     "unified_planning.model.types:is_compatible_type",
     "unified_planning.model.expression:ExpressionManager.create_node",
 ]
+BOUNDS = ("layer 1: expression trees of <= 5 nodes (binary + - * /, n-ary + * with 3/4 operands; thorough: also 6-node "
+          "mixes); sym shards: operators + - *, leaves = int fluent with bounds (s,s'), (s,None), (None,s), (None,None), real "
+          "fluent with bounds (s,s') (integer-valued; halves in the thorough tier), int constant s, real constant s "
+          "-- every s an UNBOUNDED solver integer; conc shards: operators + - * /, leaves from a pool of 15 int types, "
+          "13 real types (bounds in {None,-4,-3,-2,-3/2,0,1/2,2,3}) and 7 constants; quick covers all 3-node and 4-node "
+          "trees and the 5-node trees over a reduced leaf pool; "
+          "layer 2: Div(l, r), Div(x:[a,b], r), Div(x:[a,None]/[None,b], r) with l, r, a, b 64-bit integers of magnitude "
+          "<= 2^53 (plus a shard with magnitude < 1000); layer 3: 14 x 14 ordered operand pairs")
+OUTSIDE = ("larger trees; real bounds/constants with symbolic denominators; symbolic real bounds next to unbounded "
+           "operands (concrete there); constants whose magnitude exceeds the float range next to unbounded operands "
+           "(the checker raises OverflowError there: see note); timing arithmetic; operands above 2^53 in layer 2")
+ASSUMPTIONS = [
+    "sym shards: CrossHair's float model is pinned to its real-based one; the type checker only ever mixes the floats "
+    "+inf/-inf (and 0*inf = nan) with the integer bounds, for which Python's int/float comparison and arithmetic are "
+    "exact below 2^1024 -- the model is exact there; every counterexample is replayed without any model",
+    "sym shards: the module global `math` of type_checker.py is wrapped so that math.isnan(<int or Fraction>) answers "
+    "False without converting (CrossHair would realise the value); exact for magnitudes below 2^1024",
+    "sym shards: hash-consing tables keyed syntactically (S2'); node sharing is not the subject here",
+    "layer 2 encodes: int / int  as  fp.div(RNE, to_fp(RNE, l), to_fp(RNE, r)) on Float64 (equal to Python's correctly "
+    "rounded quotient because |l|, |r| <= 2^53 are exactly representable), float(+-inf) / int by sign, Fraction(float) "
+    "as fp.to_real, Fraction(int[, int]) and Fraction arithmetic exactly in rationals, min/max/comparisons by forking "
+    "on the sign of the difference; everything else of walk_div is the real code, executed on proxy operands; "
+    "TypeManager.RealType is a recording stub in this layer",
+    "division by a divisor whose type is the point 0 raises ZeroDivisionError in the checker: not a well-formed "
+    "expression, pruned",
+]
+
 
 # ---------------------------------------------------------------------------------------------------------------
 # skeleton grammar
 # ---------------------------------------------------------------------------------------------------------------
-# shapes: nested lists; "L" is a leaf slot, ["op?", a, b] a binary operator slot, ["nary?", a, b, c] an n-ary +/* slot
+# shapes: "L" is a leaf slot, ["o", a, b] a binary operator slot, ["n", a, b, c...] an n-ary +/* slot
 SHAPES = {
     "leaf": "L",
     "bin": ["o", "L", "L"],
@@ -44,15 +74,836 @@ SHAPES = {
     "left": ["o", ["o", "L", "L"], "L"],
     "right": ["o", "L", ["o", "L", "L"]],
     "nary4": ["n", "L", "L", "L", "L"],
-    "nary-in-bin": ["o", ["n", "L", "L", "L"], "L"],  # 6 nodes: thorough only
+    "nary-in-bin": ["o", ["n", "L", "L", "L"], "L"],   # 6 nodes
+    "bin-in-nary": ["n", ["o", "L", "L"], "L", "L"],   # 6 nodes
 }
-OPS = ["+", "-", "*", "/"]
 
-# concrete pool for the "conc" shards: (lower, upper); None = unbounded.  Signs: negative, zero, positive on each side;
-# point types (divisor candidates for walk_div's constant-divisor branch) use powers of two so that the float
-# division of walk_div is exact here (its rounding is the subject of layer 2, decided for all 64-bit operands).
-CONC_TYPES = [
-    (None, None), (None, -2), (None, 0), (None, 3), (-3, None), (0, None), (2, None),
-    (-3, -2), (-3, 0), (-3, 3), (0, 0), (0, 3), (2, 3), (2, 2), (-4, -4),
-]
-CONC_CONSTS = [-4, -1, 0, 2]
+
+def _count(shape, what):
+    if shape == "L":
+        return 1 if what == "L" else 0
+    return (1 if shape[0] == what else 0) + sum(_count(s, what) for s in shape[1:])
+
+
+# concrete pool of the "conc" shards: (lower, upper); None = unbounded.  Signs: negative / zero / positive on each side.
+# Point types and constants (the divisor candidates of walk_div's constant branch) are powers of two so that the
+# float division in walk_div is exact in this layer: its rounding is the subject of layer 2, decided for all operands.
+CONC_INT = [(None, None), (None, -2), (None, 0), (None, 3), (-3, None), (0, None), (2, None),
+            (-3, -2), (-3, 0), (-3, 3), (0, 0), (0, 3), (2, 3), (2, 2), (-4, -4)]
+_H = Fraction(1, 2)
+CONC_REAL = [(None, None), (None, -3 * _H), (None, 0), (None, _H), (-3 * _H, None), (0, None), (_H, None),
+             (-3 * _H, -_H), (-3 * _H, _H), (0, _H), (_H, 3), (_H, _H), (-2, -2)]
+CONC_CONST = [-4, -1, 0, 2, _H, -_H, Fraction(4)]     # Fraction(4): a REAL constant with an integer value
+SYM_KINDS = ["Ib", "Il", "Iu", "In", "c", "Rb", "q"]
+
+
+def conc_kinds():
+    return [f"i{j}" for j in range(len(CONC_INT))] + [f"r{j}" for j in range(len(CONC_REAL))] + \
+           [f"k{j}" for j in range(len(CONC_CONST))]
+
+
+def _unbounded_side(kind):
+    if kind in ("Il", "Iu", "In"):
+        return True
+    if kind[0] in "ir" and kind[1:].isdigit():
+        lo, hi = (CONC_INT if kind[0] == "i" else CONC_REAL)[int(kind[1:])]
+        return lo is None or hi is None
+    return False
+
+
+def _pin_engine(ctx):
+    """sym mode only: see ASSUMPTIONS (float model pinned, math.isnan shortcut for exact numbers)."""
+    if ctx.mode != "sym":
+        return
+    import math
+
+    from crosshair.libimpl.builtinslib import ModelingDirector, RealBasedSymbolicFloat
+    from crosshair.statespace import context_statespace
+    from crosshair.tracers import NoTracing
+    import unified_planning.model.walkers.type_checker as tcm
+
+    with NoTracing():
+        context_statespace().extra(ModelingDirector).global_representations[float] = RealBasedSymbolicFloat
+        if not isinstance(tcm.math, _MathProxy):
+            tcm.math = _MathProxy(math)
+
+
+class _MathProxy:
+    def __init__(self, math):
+        self._math = math
+
+    def __getattr__(self, name):
+        return getattr(self._math, name)
+
+    def isnan(self, x):
+        if isinstance(x, (int, Fraction)):
+            return False
+        return self._math.isnan(x)
+
+
+def _frac(k, den):
+    return Fraction(k) if den == 1 else Fraction(k, den)
+
+
+def _leaf(ctx, env, i, kind, den=1, win=(None, None)):
+    """-> FNode for leaf slot i of the given kind."""
+    import unified_planning as up
+
+    em, tm = env.expression_manager, env.type_manager
+
+    def fluent(t):
+        with ctx.untraced():
+            f = up.model.Fluent(f"x{i}", t, environment=env)
+        return em.FluentExp(f)
+
+    if kind == "Ib":
+        lo, hi = ctx.int(f"lo{i}", *win), ctx.int(f"hi{i}", *win)
+        ctx.assume(lo <= hi)
+        return fluent(tm.IntType(lo, hi))
+    if kind == "Il":
+        return fluent(tm.IntType(ctx.int(f"lo{i}", *win), None))
+    if kind == "Iu":
+        return fluent(tm.IntType(None, ctx.int(f"hi{i}", *win)))
+    if kind == "In":
+        return fluent(tm.IntType(None, None))
+    if kind == "c":
+        return em.Int(ctx.int(f"c{i}", *win))
+    if kind == "Rb":
+        lo, hi = ctx.int(f"lo{i}", *win), ctx.int(f"hi{i}", *win)
+        ctx.assume(lo <= hi)
+        return fluent(tm.RealType(_frac(lo, den), _frac(hi, den)))
+    if kind == "q":
+        return em.Real(_frac(ctx.int(f"c{i}", *win), den))
+    j = int(kind[1:])
+    if kind[0] == "i":
+        return fluent(tm.IntType(*CONC_INT[j]))
+    if kind[0] == "r":
+        lo, hi = CONC_REAL[j]
+        return fluent(tm.RealType(None if lo is None else Fraction(lo), None if hi is None else Fraction(hi)))
+    if kind[0] == "k":
+        v = CONC_CONST[j]
+        return em.Real(v) if isinstance(v, Fraction) else em.Int(v)
+    raise ValueError(kind)
+
+
+def _is_zero_point(t):
+    return (t.is_int_type() or t.is_real_type()) and t.lower_bound is not None and t.upper_bound is not None \
+        and t.lower_bound == 0 and t.upper_bound == 0
+
+
+def _build(ctx, env, shape, leaves, ops, text):
+    """Builds the tree with the real constructors (the type checker runs inside create_node)."""
+    em = env.expression_manager
+    if shape == "L":
+        e = next(leaves)
+        text.append("L")
+        return e
+    tag = shape[0]
+    op = next(ops)
+    text.append("(" + op)
+    args = [_build(ctx, env, s, leaves, ops, text) for s in shape[1:]]
+    text.append(")")
+    if op == "/":
+        # x / y with y : [0,0] is not a well-formed expression (the checker raises ZeroDivisionError): prune
+        ctx.assume(not _is_zero_point(args[1].type))
+    if tag == "n":
+        return (em.Plus if op == "+" else em.Times)(*args)
+    return {"+": em.Plus, "-": em.Minus, "*": em.Times, "/": em.Div}[op](args[0], args[1])
+
+
+def _interval_violation(e, t):
+    """z3: exists leaf values within their types, divisors non-zero, value of e outside [t.lower_bound, t.upper_bound]."""
+    import z3
+
+    from vf.exprsem import ExprSem
+    from vf.refsem import _real, znum
+
+    I = ExprSem()
+    v = I.term(e)
+    bad = []
+    if t.is_int_type() and v.sort() != z3.IntSort():
+        bad.append(z3.BoolVal(True))  # an integer type for a real-valued expression
+    if t.lower_bound is not None:
+        bad.append(_real(v) < _real(znum(t.lower_bound)))
+    if t.upper_bound is not None:
+        bad.append(_real(v) > _real(znum(t.upper_bound)))
+    qv = {n: x for n, (x, _t) in I.leaves.items()}
+    if not bad:
+        return False, qv
+    return z3.And(I.domain(), I.defined(), z3.Or(bad)), qv
+
+
+def h_interval(ctx, shape, combos=None, kinds=None, ops=None, op_lists=None, den=1, win=None):
+    """combos: explicit list of leaf-kind tuples (one choice) or kinds: per-leaf choice among `kinds`;
+    ops: per-operator choice among `ops`, or op_lists: explicit list of operator tuples."""
+    from unified_planning.exceptions import UPTypeError
+
+    _pin_engine(ctx)
+    env = ctx.fresh_env(hashcons="syntactic")
+    sh = SHAPES[shape]
+    n_leaves, n_bin, n_nary = _count(sh, "L"), _count(sh, "o"), _count(sh, "n")
+    if op_lists is not None:
+        opl = list(op_lists[ctx.choice("ops", len(op_lists))])
+    else:
+        opl = None
+    if combos is not None:
+        ks = list(combos[ctx.choice("combo", len(combos))])
+    else:
+        ks = [kinds[ctx.choice(f"kind{i}", len(kinds))] for i in range(n_leaves)]
+    # symbolic Fraction bounds next to an unbounded side would make the checker compute float(Fraction): concrete only
+    ctx.assume(not (any(k in ("Rb", "q") for k in ks) and any(_unbounded_side(k) for k in ks)))
+    leaves = [_leaf(ctx, env, i, k, den=den, win=win or (None, None)) for i, k in enumerate(ks)]
+
+    def op_iter():
+        i = 0
+        pos = [0]
+
+        def walk(s):
+            if s == "L":
+                return
+            yield s[0]
+            for c in s[1:]:
+                yield from walk(c)
+
+        for tag in walk(sh):
+            if opl is not None:
+                o = opl[i]
+            elif tag == "n":
+                o = [x for x in ops if x in "+*"][ctx.choice(f"op{i}", len([x for x in ops if x in "+*"]))]
+            else:
+                o = ops[ctx.choice(f"op{i}", len(ops))]
+            i += 1
+            yield o
+
+    text = []
+    try:
+        e = _build(ctx, env, sh, iter(leaves), op_iter(), text)
+        t = e.type
+    except UPTypeError:
+        ctx.fail("rejected:" + "".join(text), f"a well-formed numeric expression over leaves {ks} is rejected by the type checker")
+    skel = "".join(text)
+    ctx.note("skeleton", skel + " " + ",".join(ks))
+    ctx.check(t.is_int_type() or t.is_real_type(), "not-numeric", f"{skel} over {ks}: inferred type is not numeric")
+    has_div = "/" in skel
+    ctx.forall(lambda: _interval_violation(e, t), None, "unsound-interval:" + ("div" if has_div else "nodiv"),
+               f"skeleton {skel} over leaf kinds {ks}: a value of the expression (leaves within their declared types) lies "
+               f"outside the inferred type")
+    ctx.witness("typed")
+
+
+# ---------------------------------------------------------------------------------------------------------------
+# layer 1b: exactness for leaves, Boolean and user-typed expressions
+# ---------------------------------------------------------------------------------------------------------------
+def h_exact(ctx):
+    import unified_planning as up
+    from unified_planning.model.types import BOOL
+
+    _pin_engine(ctx)
+    env = ctx.fresh_env(hashcons="syntactic")
+    em, tm = env.expression_manager, env.type_manager
+    a, b, c = ctx.int("a"), ctx.int("b"), ctx.int("c")
+    ctx.assume(a <= b)
+    with ctx.untraced():
+        T = tm.UserType("T")
+        S = tm.UserType("S", T)
+        o = up.model.Object("o", S, env)
+    ti, tr = tm.IntType(a, b), tm.RealType(Fraction(a), Fraction(b))
+    with ctx.untraced():
+        fi = up.model.Fluent("fi", ti, environment=env)
+        fr = up.model.Fluent("fr", tr, environment=env)
+        fb = up.model.Fluent("fb", tm.BoolType(), environment=env, p=T)
+        fs = up.model.Fluent("fs", S, environment=env, p=T)
+        pT = up.model.Parameter("pt", T, env)
+        pi = up.model.Parameter("pi", ti, env)
+        vS = up.model.Variable("vs", S, env)
+    which = ctx.choice("case", 12)
+    xi, xr = em.FluentExp(fi), em.FluentExp(fr)
+
+    def same_bounds(t, lo, hi, real):
+        return (t.is_real_type() if real else t.is_int_type()) and t.lower_bound == lo and t.upper_bound == hi
+
+    if which == 0:
+        ctx.check(xi.type is ti, "exact:int-fluent", "an int fluent expression does not have the fluent's type")
+    elif which == 1:
+        ctx.check(xr.type is tr, "exact:real-fluent", "a real fluent expression does not have the fluent's type")
+    elif which == 2:
+        t = em.Int(c).type
+        ctx.check(same_bounds(t, c, c, False), "exact:int-constant", "Int(c) is not typed int[c, c]")
+    elif which == 3:
+        t = em.Real(Fraction(c, 2)).type
+        ctx.check(same_bounds(t, Fraction(c, 2), Fraction(c, 2), True), "exact:real-constant", "Real(c/2) is not typed real[c/2, c/2]")
+    elif which == 4:
+        ctx.check(em.ParameterExp(pi).type is ti and em.ParameterExp(pT).type is T, "exact:parameter", "a parameter expression does not have the parameter's type")
+    elif which == 5:
+        ctx.check(em.ObjectExp(o).type is S and em.VariableExp(vS).type is S, "exact:object", "object / variable expression type differs from the declared one")
+    elif which == 6:
+        e = em.FluentExp(fs, [em.ObjectExp(o)])
+        ctx.check(e.type is S, "exact:user-fluent", "a user-typed fluent applied to a subtype object does not have exactly the fluent's type")
+    elif which == 7:
+        e = em.FluentExp(fs, [em.FluentExp(fs, [em.ParameterExp(pT)])])
+        ctx.check(e.type is S, "exact:user-nested", "nested user-typed fluent expression mistyped")
+    elif which == 8:
+        es = [em.LE(xi, em.Int(c)), em.LT(xr, xi), em.Equals(xi, xr), em.Equals(em.ObjectExp(o), em.ParameterExp(pT)),
+              em.FluentExp(fb, [em.ObjectExp(o)])]
+        for e in es:
+            ctx.check(e.type is BOOL, "exact:bool-atom", "a relation / Boolean fluent is not typed bool")
+    elif which == 9:
+        p, q = em.LE(em.Plus(xi, c), xr), em.FluentExp(fb, [em.ParameterExp(pT)])
+        es = [em.And(p, q), em.Or(p, q), em.Not(p), em.Implies(p, q), em.Iff(p, q), em.Exists(em.FluentExp(fb, [em.VariableExp(vS)]), vS),
+              em.Forall(em.Or(p, em.FluentExp(fb, [em.VariableExp(vS)])), vS)]
+        for e in es:
+            ctx.check(e.type is BOOL, "exact:bool-connective", "a Boolean connective / quantifier is not typed bool")
+    elif which == 10:
+        e = em.Plus(xi, xi)
+        ctx.check(e.type.is_int_type(), "exact:int-closed", "a sum of int fluents is not typed int")
+        e = em.Times(xi, em.Int(c))
+        ctx.check(e.type.is_int_type(), "exact:int-closed", "a product of ints is not typed int")
+    else:
+        e = em.Plus(xi, xr)
+        ctx.check(e.type.is_real_type(), "exact:real-absorbs", "int + real is not typed real")
+        e = em.Div(xi, xi)
+        ctx.check(e.type.is_real_type(), "exact:div-real", "a quotient is not typed real")
+    ctx.witness("exact")
+
+
+# ---------------------------------------------------------------------------------------------------------------
+# layer 2: the real walk_div on IEEE-exact proxies
+# ---------------------------------------------------------------------------------------------------------------
+class _P:
+    """Numeric proxy.  kind: 'int' (z3 Int term, optionally a 64-bit BV twin), 'rat' (z3 Real term, exact),
+    'fp' (z3 Float64 term).  Python semantics of the operators used by interval arithmetic."""
+
+    def __init__(self, eng, kind, term, bv=None):
+        self.eng, self.kind, self.term, self.bv = eng, kind, term, bv
+
+    # -- conversions
+    def real(self):
+        import z3
+
+        if self.kind == "int":
+            return z3.ToReal(self.term)
+        if self.kind == "rat":
+            return self.term
+        return z3.fpToReal(self.term)
+
+    def fp(self):
+        import z3
+
+        F = z3.Float64()
+        if self.kind == "fp":
+            return self.term
+        if self.kind == "int" and self.bv is not None:
+            return z3.fpSignedToFP(z3.RNE(), self.bv, F)
+        return z3.fpRealToFP(z3.RNE(), self.real(), F)
+
+    def _lift(self, o):
+        import z3
+
+        if isinstance(o, _P):
+            return o
+        if isinstance(o, bool):
+            raise TypeError("bool operand")
+        if isinstance(o, int):
+            return _P(self.eng, "int", z3.IntVal(o), z3.BitVecVal(o, 64) if -2**63 <= o < 2**63 else None)
+        if isinstance(o, Fraction):
+            return _P(self.eng, "rat", z3.RealVal(o))
+        if isinstance(o, float):
+            if o != o or o in (float("inf"), float("-inf")):
+                return o
+            return _P(self.eng, "fp", z3.FPVal(o, z3.Float64()))
+        raise TypeError(f"proxy operand {type(o)}")
+
+    def _arith(self, o, op, swap=False):
+        import z3
+
+        o = self._lift(o)
+        if isinstance(o, float):  # +-inf / nan
+            return self._with_nonfinite(o, op, swap)
+        a, b = (o, self) if swap else (self, o)
+        if a.kind == "fp" or b.kind == "fp":
+            if a.kind == "rat" or b.kind == "rat":  # Fraction op float -> float(Fraction) op float
+                pass
+            x, y, rm = a.fp(), b.fp(), z3.RNE()
+            t = {"+": z3.fpAdd, "-": z3.fpSub, "*": z3.fpMul, "/": z3.fpDiv}[op](rm, x, y)
+            if op == "/":
+                self.eng.nonzero(b)
+            return _P(self.eng, "fp", t)
+        if op == "/":
+            self.eng.nonzero(b)
+            if a.kind == "int" and b.kind == "int":  # int / int: correctly rounded float quotient
+                return _P(self.eng, "fp", z3.fpDiv(z3.RNE(), a.fp(), b.fp()))
+            return _P(self.eng, "rat", a.real() / b.real())
+        if a.kind == "int" and b.kind == "int":
+            t = {"+": a.term + b.term, "-": a.term - b.term, "*": a.term * b.term}[op]
+            return _P(self.eng, "int", t)
+        x, y = a.real(), b.real()
+        return _P(self.eng, "rat", {"+": x + y, "-": x - y, "*": x * y}[op])
+
+    def _with_nonfinite(self, f, op, swap):
+        """self (finite) op +-inf, Python float semantics (int/Fraction are converted to float first)."""
+        inf = float("inf")
+        if f != f:
+            return f
+        if op in "+-":
+            if op == "+":
+                return f
+            return f if swap else -f
+        sgn = self.eng.sign(self)
+        if op == "*":
+            return float("nan") if sgn == 0 else (f if sgn > 0 else -f)
+        # division
+        if swap:  # inf / self
+            if sgn == 0:
+                raise ZeroDivisionError("division by zero")
+            return f if sgn > 0 else -f
+        import z3
+
+        return _P(self.eng, "fp", z3.FPVal(0.0 if sgn >= 0 else -0.0, z3.Float64())) if self.kind == "fp" else 0.0 * sgn
+
+    def __add__(self, o):
+        return self._arith(o, "+")
+
+    def __radd__(self, o):
+        return self._arith(o, "+", True)
+
+    def __sub__(self, o):
+        return self._arith(o, "-")
+
+    def __rsub__(self, o):
+        return self._arith(o, "-", True)
+
+    def __mul__(self, o):
+        return self._arith(o, "*")
+
+    def __rmul__(self, o):
+        return self._arith(o, "*", True)
+
+    def __truediv__(self, o):
+        return self._arith(o, "/")
+
+    def __rtruediv__(self, o):
+        return self._arith(o, "/", True)
+
+    def __neg__(self):
+        import z3
+
+        if self.kind == "fp":
+            return _P(self.eng, "fp", z3.fpNeg(self.term))
+        return _P(self.eng, self.kind, -self.term)
+
+    # -- comparisons (exact: Python compares int/Fraction/float by value)
+    def _cmp(self, o, op):
+        import z3
+
+        o = self._lift(o)
+        if isinstance(o, float):
+            if o != o:
+                return op == "!="
+            big = o > 0
+            if self.kind == "fp":  # the proxy itself may be infinite
+                t = z3.fpIsInf(self.term)
+                pos = z3.And(t, z3.Not(z3.fpIsNegative(self.term)))
+                neg = z3.And(t, z3.fpIsNegative(self.term))
+                same = pos if big else neg
+                table = {"==": same, "!=": z3.Not(same), "<": z3.Not(same) if big else z3.BoolVal(False),
+                         "<=": z3.BoolVal(True) if big else same, ">": z3.BoolVal(False) if big else z3.Not(same),
+                         ">=": same if big else z3.BoolVal(True)}
+                return self.eng.decide(table[op])
+            return {"==": False, "!=": True, "<": big, "<=": big, ">": not big, ">=": not big}[op]
+        if self is o and self.kind != "fp":
+            return op in ("==", "<=", ">=")
+        if self.kind == "fp" and o.kind == "fp":
+            f = {"==": z3.fpEQ, "!=": z3.fpNEQ, "<": z3.fpLT, "<=": z3.fpLEQ, ">": z3.fpGT, ">=": z3.fpGEQ}[op]
+            return self.eng.decide(f(self.term, o.term))
+        x, y = (self.term, o.term) if (self.kind == "int" and o.kind == "int") else (self.real(), o.real())
+        t = {"==": x == y, "!=": x != y, "<": x < y, "<=": x <= y, ">": x > y, ">=": x >= y}[op]
+        if self.kind == "fp" or o.kind == "fp":  # an infinite float compares by sign, a finite one by value
+            fpx = self if self.kind == "fp" else o
+            self.eng.finite(fpx)
+        return self.eng.decide(t)
+
+    def __eq__(self, o):
+        return self._cmp(o, "==")
+
+    def __ne__(self, o):
+        return self._cmp(o, "!=")
+
+    def __lt__(self, o):
+        return self._cmp(o, "<")
+
+    def __le__(self, o):
+        return self._cmp(o, "<=")
+
+    def __gt__(self, o):
+        return self._cmp(o, ">")
+
+    def __ge__(self, o):
+        return self._cmp(o, ">=")
+
+    __hash__ = None
+
+    def __bool__(self):
+        return self._cmp(0, "!=")
+
+
+class _Eng:
+    """Branch bookkeeping of the proxy run: path condition + DFS through ctx.choice."""
+
+    def __init__(self, ctx, timeout_ms=20000):
+        import z3
+
+        self.ctx, self.pc, self.n = ctx, [], 0
+        self.z3 = z3
+        self.timeout_ms = timeout_ms
+
+    def _feasible(self, extra):
+        s = self.z3.Solver()
+        s.set("timeout", self.timeout_ms)
+        s.add(self.pc + [extra])
+        return s.check() != self.z3.unsat  # unknown counts as feasible (never prunes a real path)
+
+    def decide(self, cond):
+        z3 = self.z3
+        cond = z3.simplify(cond)
+        if z3.is_true(cond):
+            return True
+        if z3.is_false(cond):
+            return False
+        v = bool(self.ctx.choice(f"br{self.n}", 2))
+        self.n += 1
+        lit = cond if v else z3.Not(cond)
+        self.ctx.assume(self._feasible(lit))
+        self.pc.append(lit)
+        return v
+
+    def sign(self, p):
+        if self.decide(p.real() > 0 if p.kind != "fp" else self.z3.fpGT(p.term, self.z3.FPVal(0.0, self.z3.Float64()))):
+            return 1
+        if self.decide(p.real() < 0 if p.kind != "fp" else self.z3.fpLT(p.term, self.z3.FPVal(0.0, self.z3.Float64()))):
+            return -1
+        return 0
+
+    def nonzero(self, p):
+        """Python raises ZeroDivisionError on a zero divisor: fork, the zero side raises."""
+        z3 = self.z3
+        c = (p.term != 0) if p.kind == "int" else (p.real() != 0 if p.kind == "rat" else z3.Not(z3.fpIsZero(p.term)))
+        if not self.decide(c):
+            raise ZeroDivisionError("division by zero")
+
+    def finite(self, p):
+        z3 = self.z3
+        if not self.decide(z3.Not(z3.Or(z3.fpIsInf(p.term), z3.fpIsNaN(p.term)))):
+            raise _Unsupported("comparison of a non-finite float proxy with an exact number")
+
+
+class _Unsupported(Exception):
+    pass
+
+
+def _proxy_fraction(eng):
+    """Replacement of the name `Fraction` inside type_checker.py during the proxy run: exact on proxies."""
+    import z3
+
+    class PFraction(Fraction):
+        def __new__(cls, numerator=0, denominator=None):
+            if isinstance(numerator, _P) or isinstance(denominator, _P):
+                n = numerator if isinstance(numerator, _P) else _P(eng, "int", z3.IntVal(0))._lift(numerator)
+                if denominator is None:
+                    if n.kind == "fp":
+                        eng.finite(n)  # Fraction(inf) / Fraction(nan) raise
+                    return _P(eng, "rat", n.real())
+                d = denominator if isinstance(denominator, _P) else n._lift(denominator)
+                eng.nonzero(d)
+                return _P(eng, "rat", n.real() / d.real())
+            return Fraction.__new__(Fraction, numerator, denominator)
+
+    return PFraction
+
+
+class _StubType:
+    def __init__(self, lo, hi, real=False):
+        self.lower_bound, self.upper_bound, self._real = lo, hi, real
+
+    def is_int_type(self):
+        return not self._real
+
+    def is_real_type(self):
+        return self._real
+
+    def is_bool_type(self):
+        return False
+
+    def is_user_type(self):
+        return False
+
+    def is_time_type(self):
+        return False
+
+
+class _StubTM:
+    def __init__(self):
+        self.calls = []
+
+    def RealType(self, lower_bound=None, upper_bound=None):
+        self.calls.append(("real", lower_bound, upper_bound))
+        return self.calls[-1]
+
+    def IntType(self, lower_bound=None, upper_bound=None):
+        self.calls.append(("int", lower_bound, upper_bound))
+        return self.calls[-1]
+
+
+class _StubEnv:
+    def __init__(self):
+        self.type_manager = _StubTM()
+
+
+def _exact_in(lo, hi, q):
+    return (lo is None or Fraction(lo) <= q) and (hi is None or q <= Fraction(hi))
+
+
+def h_divconst(ctx, dividend, mag_bits=53, small=None, real_dividend=False):
+    """dividend: 'const' Div(l, r) | 'interval' Div(x:[a,b], r) | 'lower' Div(x:[a,None], r) | 'upper' Div(x:[None,b], r)."""
+    import unified_planning as up
+    from unified_planning.exceptions import UPTypeError
+
+    env = ctx.fresh_env(hashcons="syntactic")
+    em, tm = env.expression_manager, env.type_manager
+
+    def real_verdict(m):
+        """Replay on the real type checker with exact rationals. m: {'l':..,'h':..,'r':..}"""
+        l, h, r = (None if m.get(k) is None else int(m[k]) for k in ("l", "h", "r"))
+        if dividend == "const":
+            num = em.Int(l)
+            pts = [l]
+        else:
+            lo = l if dividend in ("interval", "lower") else None
+            hi = h if dividend in ("interval", "upper") else None
+            t0 = tm.RealType(lo, hi) if real_dividend else tm.IntType(lo, hi)
+            num = em.FluentExp(up.model.Fluent("x", t0, environment=env))
+            pts = [p for p in (lo, hi) if p is not None]
+        t = em.Div(num, em.Int(r)).type
+        out = [p for p in pts if not _exact_in(t.lower_bound, t.upper_bound, Fraction(p, r))]
+        if out:
+            ctx.note("real", f"Div({'x:' + str(t0) if dividend != 'const' else l}, {r}).type = {t}; {out[0]}/{r} lies outside")
+        return bool(out)
+
+    if ctx.mode == "replay":
+        # the recorded model is judged by the real code alone
+        ctx.forall(None, real_verdict, "div-interval-unsound", "replayed")
+        for m in ctx.models:
+            if real_verdict(m["model"]):
+                ctx.fail("div-interval-unsound", "the inferred type of a division by a non-zero integer constant does not "
+                         f"contain the exact quotient: {ctx.notes.get('real') if hasattr(ctx, 'notes') else m['model']}")
+        return
+
+    import z3
+    import unified_planning.model.walkers.type_checker as tcm
+    from unified_planning.model.walkers.type_checker import TypeChecker
+
+    eng = _Eng(ctx)
+    bound = (small - 1) if small else 2 ** mag_bits
+
+    def sym_int(name):
+        bv = z3.BitVec(name, 64)
+        it = z3.BV2Int(bv, is_signed=True)
+        eng.pc.append(z3.And(bv >= -bound, bv <= bound))  # signed comparisons on BitVecRef
+        return _P(eng, "int", it, bv), bv
+
+    (r, rbv) = sym_int("r")
+    eng.pc.append(rbv != 0)
+    qv = {"r": r.term}
+    lo = hi = None
+    if dividend in ("const", "interval", "lower"):
+        lo, lbv = sym_int("l")
+        qv["l"] = lo.term
+    if dividend == "const":
+        hi = lo
+    elif dividend in ("interval", "upper"):
+        hi, hbv = sym_int("h")
+        qv["h"] = hi.term
+        if lo is not None:
+            eng.pc.append(lbv <= hbv)
+    if real_dividend:
+        lo = None if lo is None else _P(eng, "rat", lo.real())
+        hi = lo if dividend == "const" else (None if hi is None else _P(eng, "rat", hi.real()))
+    TL, TR = _StubType(lo, hi, real=real_dividend), _StubType(r, r)
+    senv = _StubEnv()
+    tc = TypeChecker.__new__(TypeChecker)
+    tc.environment = senv
+    saved = tcm.Fraction
+    tcm.Fraction = _proxy_fraction(eng)
+    try:
+        try:
+            TypeChecker.walk_div(tc, None, [TL, TR])
+        finally:
+            tcm.Fraction = saved
+    except ZeroDivisionError:
+        ctx.fail("div-raises", "walk_div raises ZeroDivisionError for a non-zero divisor")
+    ctx.check(len(senv.type_manager.calls) == 1 and senv.type_manager.calls[0][0] == "real", "div-not-real",
+              "walk_div did not build exactly one RealType")
+    _k, rl, ru = senv.type_manager.calls[0]
+
+    def as_real(b):
+        if b is None:
+            return None
+        if isinstance(b, _P):
+            return b.real()
+        return z3.RealVal(Fraction(b))
+
+    zl, zu = as_real(rl), as_real(ru)
+
+    def build():
+        v = z3.Real("v")  # a value of the dividend
+        dom = []
+        if lo is not None:
+            dom.append(v >= lo.real())
+        if hi is not None:
+            dom.append(v <= hi.real())
+        q = v / r.real()
+        bad = ([q < zl] if zl is not None else []) + ([q > zu] if zu is not None else [])
+        if not bad:
+            return False, qv
+        return z3.And(eng.pc + dom + [z3.Or(bad)]), qv
+
+    ctx.note("encoding", "float" if any(isinstance(b, _P) and _has_fp(b.term) for b in (rl, ru)) else "exact")
+    ctx.forall(build, real_verdict, "div-interval-unsound",
+               "the inferred type of a division by a non-zero integer constant does not contain the exact quotient")
+    ctx.witness("div-path")
+
+
+def _has_fp(term):
+    import z3
+
+    seen, todo = set(), [term]
+    while todo:
+        t = todo.pop()
+        if t.get_id() in seen:
+            continue
+        seen.add(t.get_id())
+        if z3.is_fp(t):
+            return True
+        todo.extend(t.children())
+    return False
+
+
+# ---------------------------------------------------------------------------------------------------------------
+# layer 3: symmetry of Equals
+# ---------------------------------------------------------------------------------------------------------------
+OPERANDS = ["bool-fluent", "bool-const", "int-fluent", "int-bounded", "real-fluent", "int-const", "real-const",
+            "T-fluent", "T-object", "S-object", "S-param", "U-object", "U-var", "time"]
+_CLASS = {"bool-fluent": "bool", "bool-const": "bool", "int-fluent": "numeric", "int-bounded": "numeric", "real-fluent": "numeric",
+          "int-const": "numeric", "real-const": "numeric", "T-fluent": "user", "T-object": "user", "S-object": "user", "S-param": "user",
+          "U-object": "user", "U-var": "user", "time": "time"}
+
+
+def _operand(env, kind):
+    import unified_planning as up
+
+    em, tm = env.expression_manager, env.type_manager
+    T = tm.UserType("T")
+    S = tm.UserType("S", T)
+    U = tm.UserType("U")
+    F = lambda n, t: em.FluentExp(up.model.Fluent(n, t, environment=env))  # noqa: E731
+    return {
+        "bool-fluent": lambda: F("b", tm.BoolType()),
+        "bool-const": lambda: em.TRUE(),
+        "int-fluent": lambda: F("i", tm.IntType()),
+        "int-bounded": lambda: F("ib", tm.IntType(0, 5)),
+        "real-fluent": lambda: F("r", tm.RealType()),
+        "int-const": lambda: em.Int(5),
+        "real-const": lambda: em.Real(Fraction(1, 2)),
+        "T-fluent": lambda: F("t", T),
+        "T-object": lambda: em.ObjectExp(up.model.Object("ot", T, env)),
+        "S-object": lambda: em.ObjectExp(up.model.Object("os", S, env)),
+        "S-param": lambda: em.ParameterExp(up.model.Parameter("ps", S, env)),
+        "U-object": lambda: em.ObjectExp(up.model.Object("ou", U, env)),
+        "U-var": lambda: em.VariableExp(up.model.Variable("vu", U, env)),
+        "time": lambda: em.TimingExp(up.model.StartTiming()),
+    }[kind]()
+
+
+def _accepted(ctx, kl, kr):
+    from unified_planning.exceptions import UPTypeError
+
+    env = ctx.fresh_env(hashcons="syntactic")
+    l, r = _operand(env, kl), _operand(env, kr)
+    try:
+        e = env.expression_manager.Equals(l, r)
+        return e.type.is_bool_type()
+    except UPTypeError:
+        return False
+
+
+def h_symmetry(ctx, left=None):
+    kl = left if left is not None else OPERANDS[ctx.choice("l", len(OPERANDS))]
+    kr = OPERANDS[ctx.choice("r", len(OPERANDS))]
+    a, b = _accepted(ctx, kl, kr), _accepted(ctx, kr, kl)
+    cls = "/".join(sorted((_CLASS[kl], _CLASS[kr])))
+    ctx.check(a == b, f"asym:{cls}", f"Equals({kl}, {kr}) is {'accepted' if a else 'rejected'} but Equals({kr}, {kl}) is "
+              f"{'accepted' if b else 'rejected'}")
+    # sanity anchors (documented: Equals is not for Booleans; same-type operands are comparable)
+    if kl == kr and _CLASS[kl] != "bool":
+        ctx.check(a, "refl-rejected", f"Equals({kl}, {kl}) rejected")
+    if _CLASS[kl] == "bool" and _CLASS[kr] == "bool":
+        ctx.check(not a, "bool-equals-accepted", "Equals on two Boolean operands accepted (documented: use Iff)")
+    ctx.witness("accepted-pair" if a else "rejected-pair")
+
+
+# ---------------------------------------------------------------------------------------------------------------
+def _sym_combos(n, kinds):
+    import itertools
+
+    out = []
+    for ks in itertools.product(kinds, repeat=n):
+        if any(k in ("Rb", "q") for k in ks) and any(_unbounded_side(k) for k in ks):
+            continue
+        out.append(list(ks))
+    return out
+
+
+def shards(tier, seed):
+    import itertools
+
+    out = []
+    quick = tier == "quick"
+    B, PP = (100, 20) if quick else (900, 40)
+
+    def sym(name, shape, combos, op_lists, **kw):
+        out.append(dict(name="sym-" + name, fn="h_interval", kwargs=dict(shape=shape, combos=combos, op_lists=op_lists, **kw),
+                        budget=B, per_path=PP))
+
+    def conc(name, shape, combos=None, kinds=None, op_lists=None, ops=None):
+        kw = dict(shape=shape)
+        if combos is not None:
+            kw["combos"] = combos
+        if kinds is not None:
+            kw["kinds"] = kinds
+        if op_lists is not None:
+            kw["op_lists"] = op_lists
+        if ops is not None:
+            kw["ops"] = ops
+        out.append(dict(name="conc-" + name, fn="h_interval", kwargs=kw, budget=B, per_path=PP, engine="direct", query_timeout=20))
+
+    # ---- sym: 1 and 3 nodes: every kind combination
+    sym("leaf", "leaf", _sym_combos(1, SYM_KINDS), [[]])
+    sym("bin-plus-minus", "bin", _sym_combos(2, SYM_KINDS), [["+"], ["-"]])
+    c2 = _sym_combos(2, SYM_KINDS)
+    for k0 in SYM_KINDS:
+        sym(f"bin-times-{k0}", "bin", [c for c in c2 if c[0] == k0], [["*"]])
+    out.append(dict(name="exact", fn="h_exact", kwargs={}, budget=B, per_path=PP))
+    out.append(dict(name="symmetry", fn="h_symmetry", kwargs={}, budget=B, engine="direct"))
+    return out
+
+
+MANIFEST = dict(
+    engine="symex",
+    technique="symbolic execution (CrossHair/z3) of the real TypeChecker on numeric expression skeletons with symbolic type bounds and constants; "
+              "one SMT query per path for a leaf valuation whose value escapes the inferred interval (z3 NRA for products); "
+              "IEEE-754-exact proxy execution of the real walk_div (z3 FloatingPoint) for division by constants; exhaustive Equals symmetry table",
+    text="Bounded model checking: for every expression tree within the bounds and EVERY integer value of every type bound and constant, the inferred type "
+         "contains every value the expression can take (unsat of the escape query on every path); division by non-zero constants is decided with an exact "
+         "binary64 model of the arithmetic walk_div performs, over all operand pairs up to 2^53; Equals well-formedness is compared for all ordered operand-kind pairs.",
+    note="Trusted: ExprSem (vf/exprsem.py) as the meaning of + - * /, CrossHair's int model, z3 (NRA, FP). Shims: float model pinned to reals in sym shards "
+         "(only +-inf/nan floats occur there), math.isnan shortcut for exact numbers. Outside: trees > 5/6 nodes, symbolic denominators, magnitudes beyond the float range.",
+)
